@@ -120,6 +120,19 @@ pub fn run(ctx: &mut Ctx) {
                 _ => {
                     // repeat an earlier query verbatim
                     match hist.iter().filter(|q| !matches!(q, Q::WitnessMut(..))).last() {
+                        // ... or almost verbatim: the same taproot query with other annex bytes of the same length
+                        Some(Q::Tap(t)) if t.annex.is_some() && ctx.rng.gen_range(0..2) == 0 => {
+                            let mut t2 = t.clone();
+                            let a = t2.annex.as_mut().unwrap();
+                            if a.len() > 1 {
+                                let i = ctx.rng.gen_range(1..a.len());
+                                a[i] ^= 1 << ctx.rng.gen_range(0..8);
+                            } else {
+                                a.push(ctx.rng.gen());
+                            }
+                            t2.wrapper = false;
+                            Q::Tap(t2)
+                        }
                         Some(q) => q.clone(),
                         None => Q::Legacy(i, vec![], EcdsaSighashType::All),
                     }
